@@ -8,7 +8,7 @@ tie   : T-gen (GetStartBucketIndex / GetNextBucketIndex / GetMaxProbe / UpdateMa
 oracle: std::map twin inside the harness (independent of the Coq model)."""
 import os, re
 
-GEN = ['gen_open2n2w.json', 'gen_base.json', 'gen_policy.json', 'gen_limp4.json', 'gen_open2n2.json', 'gen_openn1.json', 'gen_open8.json']
+GEN = ['gen_unlimp.json', 'gen_limp1.json', 'gen_open2n2w.json', 'gen_base.json', 'gen_policy.json', 'gen_limp4.json', 'gen_open2n2.json', 'gen_openn1.json', 'gen_open8.json']
 
 ITEMS = {'a': (4, 4, 0), 'b': (8, 4, 0), 'c': (8, 8, 0), 'd': (24, 8, 0), 'e': (40, 8, 0), 'f': (16, 16, 0), 'g': (1, 1, 0),
          'h': (2, 2, 0), 'n': (8, 4, 1), 'm': (24, 8, 1), 'x': (8, 4, 2), 'y': (40, 8, 2)}
